@@ -12,7 +12,7 @@ HARNESSES = {
 }
 
 
-QUICK = ('do_update', 'do_find', 'do_prune')  # about two minutes each for the list-based caches
+QUICK = ('do_update', 'do_find')  # two to four minutes each for the list-based caches
 QUICK_ALL = ('rr_cache',)                   # every unit of these containers finishes in about a minute
 
 
@@ -112,5 +112,6 @@ def run_u(unit, want_trace=False):
     res['obligations'] = obl
     res['status'] = 'done'
     res['wall_s'] = round(time.time() - t0, 2)
-    json.dump(res, open(resf, 'w'))
+    if all(o['status'] in ('SUCCESS', 'FAILURE') for o in obl):
+        json.dump(res, open(resf, 'w'))
     return res
